@@ -25,12 +25,18 @@ VERUS_UNITS = {
         'template': 'trackers.rs.tpl',
         'owners': [
             (r'.*::prepare$', ['C03', 'C12']),
+            (r'.*::start$', ['C03', 'C12', 'C16']),
+            (r'.*::start_position(_pred)?$', ['C03', 'C12', 'C16']),
+            (r'lemma_first_idx3?_(none|some)$', ['C03', 'C12']),
             (r'.*::end$', ['C03', 'C04']),
             (r'.*::(is_reacting|data_entity|system|source|reaction_type)$', ['C03', 'C04']),
             (r'.*::default$', ['C03', 'C04']),
             (r'lemma_.*', ['C03', 'C12']),
         ],
         'negctl': [
+            # start must claim the FIRST entry of the system: claiming the entry after it must be rejected
+            ('else { final(self).prepared@ == old(self).prepared@.remove(i) && final(self).currently_reacting && final(self).system == reactor',
+             'else { final(self).prepared@ == old(self).prepared@.remove(i + 1) && final(self).currently_reacting && final(self).system == reactor', 'EntityReactionAccessTracker::start'),
             ('ensures !final(self).currently_reacting,\n        final(self).reactor_handle is None,',
              'ensures !final(self).currently_reacting,\n        final(self).reactor_handle is Some,', 'DespawnAccessTracker::end'),
         ],
@@ -271,9 +277,9 @@ PROPS = {
         note=ENVNOTE + '; maps = finite partial maps (hashing not modelled); Vec as an assumed sequence stand-in in units cache_revoke / dispatch; tuple trigger bundles (macro-generated) not under contract',
         explanation='register_* x7, revoke_* x5, 4 schedule fns and the 11 trigger types proved unbounded (Verus, verbatim); EntityReactors and entity-event dispatch bounded (Kani); history lemma L3'),
     'C03': dict(category='other', design_ref='DESIGN.md 5/C03',
-        text='Contracts on the four access trackers, every event reader and the setup/cleanup functions of commands.rs: prepare = append, end clears (Verus, unbounded, verbatim); start(r) claims the oldest entry parked for r and leaves the rest in order (Kani, every content of lists of length 0..3 quick / 0..5 thorough); Insertion/Mutation/Removal/DespawnEvent::get return the current reaction\'s source iff the tracker is reacting AND kind AND component type id are the reader\'s, generically in the component type (Verus, verbatim); Broadcast/EntityEvent readers and SystemEvent::take likewise for payload types u32/u16 (Kani, loop-free; a second take in the same run reads nothing); each command\'s apply parks its metadata in exactly the tracker(s) of its kind and hands the runner the (start, end) pair of that kind (Verus, verbatim); start_X/end_X start/stop exactly the trackers of kind X (Verus, verbatim, against the assumed World contract); cleanup_on_abort = setup then cleanup, unconditionally (Verus). Lemma L1 (Verus) lifts the start contract to: for any interleaving of parked events each run of a system receives the oldest metadata parked for it. The runner\'s replay of postponed commands is under contract too (Verus, closure body verbatim, lifted by extraction rule 14): an entry of the buffer that names the command that just finished is handed back to the runner with ITS OWN (command, setup, cleanup) triple - the pair that starts/ends the trackers of its kind - entries are visited front to back, the others are kept in order. Not covered: histories over nested trees, where metadata parked by different kinds of command interleave (known finding F3).',
+        text='Contracts on the four access trackers, every event reader and the setup/cleanup functions of commands.rs: prepare = append, end clears (Verus, unbounded, verbatim); start(r) claims the oldest entry parked for r and leaves the rest in order, for parked lists of ANY length (Verus, verbatim; the `position` closure lifted by extraction rule 17; restated on the compiled code by Kani for every content of lists of length 0..3 quick / 0..5 thorough); Insertion/Mutation/Removal/DespawnEvent::get return the current reaction\'s source iff the tracker is reacting AND kind AND component type id are the reader\'s, generically in the component type (Verus, verbatim); Broadcast/EntityEvent readers and SystemEvent::take likewise for payload types u32/u16 (Kani, loop-free; a second take in the same run reads nothing); each command\'s apply parks its metadata in exactly the tracker(s) of its kind and hands the runner the (start, end) pair of that kind (Verus, verbatim); start_X/end_X start/stop exactly the trackers of kind X (Verus, verbatim, against the assumed World contract); cleanup_on_abort = setup then cleanup, unconditionally (Verus). Lemma L1 (Verus) lifts the start contract to: for any interleaving of parked events each run of a system receives the oldest metadata parked for it. The runner\'s replay of postponed commands is under contract too (Verus, closure body verbatim, lifted by extraction rule 14): an entry of the buffer that names the command that just finished is handed back to the runner with ITS OWN (command, setup, cleanup) triple - the pair that starts/ends the trackers of its kind - entries are visited front to back, the others are kept in order. Not covered: histories over nested trees, where metadata parked by different kinds of command interleave (known finding F3).',
         note=ENVNOTE + '; the cross-kind metadata mix-up under nested replay (F3) is a runner-level history that no function contract decides: listed in known_findings.json',
-        explanation='tracker prepare/end/getters, entity-reaction and despawn readers, start_/end_* and cleanup_on_abort proved by Verus on verbatim text; tracker start and event readers complete@shape by Kani; per-system FIFO by lemma L1; runner not covered'),
+        explanation='tracker prepare/start/end/getters, entity-reaction and despawn readers, start_/end_* and cleanup_on_abort proved by Verus on verbatim text (unbounded); event readers complete@shape by Kani; per-system FIFO by lemma L1; runner not covered'),
     'C04': dict(category='other', design_ref='DESIGN.md 5/C04',
         text='Kani discharges on the real run_initialized_system, for exclusive and non-exclusive systems with 0 and 2 deferred commands, that the cleanup runs exactly once, after the system body and before the first command the body deferred is applied; and on RawCallbackSystem / CallbackSystem::run_with_cleanup that this holds on every one of 2-3 consecutive runs and for the Empty callback. Verus proves on verbatim text that every end_X cleanup leaves its tracker(s) not reacting (and releases the payload per C05), that every reader returns Err when its tracker is not reacting, and that a system-event payload can be taken at most once (SystemEventData::take). Level other: the stub System used by the callback harnesses stands for Bevy\'s function/exclusive systems; positions in arbitrary trees and the anonymous closure of ReactCommands::once are not under contract.',
         note=ENVNOTE + '; `unsafe` in run_initialized_system trusted; stub System = assumed contract of bevy System (run = run_unsafe + apply_deferred; exclusive run = body + flush)',
@@ -295,13 +301,13 @@ PROPS = {
         note=ENVNOTE + '; threads not verified; termination of the collection loop not verified; channel receiver modelled with &mut access (unit gc)',
         explanation='exact reference count up to the despawn request (Kani, real Arc, <=3 clones; lemma L4); one collection drains all requests and removes every requested entity (Verus, unbounded); concurrency assumed'),
     'C16': dict(category='other', design_ref='DESIGN.md 5/C16 + 9.5',
-        text='Function-level contracts: EntityLocal::{entity,get,get_mut} expose exactly the entity that caused the run and the local data attached to it, writes land on that data, and every accessor panics outside a run of the reactor\'s own system (Kani, loop-free, value symbolic); the run\'s source comes from EntityReactionAccessTracker whose start claims the oldest entry parked for that system (Kani K.tracker.entity, lists L<=3/5; lemma L1); cleanup_reactor_data(id, e) removes the local data iff e\'s registration list holds no entry of reactor id any more and leaves entities without list alone (Kani, lists L<=2, all contents); EntityReactors::{insert,remove,iter_reactors} (Kani); ReactorType::get_entity and ReactorMode::prepare (a world reactor is Persistent => never ref-counted => never collected) (Verus, verbatim). Verus (verbatim, generic in the reactor type): Reactor::{add,add_starting_triggers,remove,run} and EntityReactor::{add,remove,system} queue exactly a PERSISTENT registration / a revocation for THE system command held by the reactor\'s resource (no system is spawned, despawned or duplicated), EntityReactor::add attaches the local data first and does nothing for a missing entity, EntityReactor::remove queues one local-data cleanup per unique entity of the removed bundle. Not covered: RevokeToken::iter_unique_entities itself (assumed), and "as last modified by earlier runs" across trees (runner).',
+        text='Function-level contracts: EntityLocal::{entity,get,get_mut} expose exactly the entity that caused the run and the local data attached to it, writes land on that data, and every accessor panics outside a run of the reactor\'s own system (Kani, loop-free, value symbolic); the run\'s source comes from EntityReactionAccessTracker whose start claims the oldest entry parked for that system (Verus, verbatim, any length; Kani K.tracker.entity restates it for lists L<=3/5; lemma L1); cleanup_reactor_data(id, e) removes the local data iff e\'s registration list holds no entry of reactor id any more and leaves entities without list alone (Kani, lists L<=2, all contents); EntityReactors::{insert,remove,iter_reactors} (Kani); ReactorType::get_entity and ReactorMode::prepare (a world reactor is Persistent => never ref-counted => never collected) (Verus, verbatim). Verus (verbatim, generic in the reactor type): Reactor::{add,add_starting_triggers,remove,run} and EntityReactor::{add,remove,system} queue exactly a PERSISTENT registration / a revocation for THE system command held by the reactor\'s resource (no system is spawned, despawned or duplicated), EntityReactor::add attaches the local data first and does nothing for a missing entity, EntityReactor::remove queues one local-data cleanup per unique entity of the removed bundle. Not covered: RevokeToken::iter_unique_entities itself (assumed), and "as last modified by earlier runs" across trees (runner).',
         note=ENVNOTE + '; Query::verif_single stands for a query over one entity',
         explanation='add/remove command contracts proved (Verus, generic); EntityLocal exposure and cleanup_reactor_data bounded/complete@shape (Kani); runner not covered'),
     'C12': dict(category='other', design_ref='DESIGN.md 5/C12',
-        text='Verus proves on the verbatim text of command_queue.rs (all lengths) that the postponed-command buffer is FIFO (push appends, remove hands over everything in order, append concatenates, pop_front = head) and, with lemma L1 (unbounded, any interleaving), that parked event metadata is a per-system FIFO given the contract of *AccessTracker::start; that contract (claims the OLDEST entry of the system, the other entries keep their ORDER) is discharged by Kani on the real start() of all four trackers for every content of parked lists of length 0..3 (quick) / 0..5 (thorough). The runner\'s replay (Verus; closure body verbatim, lifted by extraction rule 14; `VecDeque::retain` read as the loop std documents): the postponed entries that name the finished command are re-run front to back, each exactly once, with their own triple, and the entries that stay keep their relative order (spec kept_of); a command postponed by a nested run is appended at the END of the buffer (clause B). Level other, not proof: start() is complete per list length only; the whole-tree order (C09) is not claimed.',
+        text='Verus proves on the verbatim text of command_queue.rs (all lengths) that the postponed-command buffer is FIFO (push appends, remove hands over everything in order, append concatenates, pop_front = head) and, with lemma L1 (unbounded, any interleaving), that parked event metadata is a per-system FIFO given the contract of *AccessTracker::start; that contract (claims the OLDEST entry of the system, the other entries keep their ORDER) is proved by Verus on the verbatim start() of all four trackers for parked lists of ANY length (the `position` closure lifted by extraction rule 17, `Iterator::position` read as the loop std documents), and restated by Kani on the compiled code for every content of parked lists of length 0..3 (quick) / 0..5 (thorough). The runner\'s replay (Verus; closure body verbatim, lifted by extraction rule 14; `VecDeque::retain` read as the loop std documents): the postponed entries that name the finished command are re-run front to back, each exactly once, with their own triple, and the entries that stay keep their relative order (spec kept_of); a command postponed by a nested run is appended at the END of the buffer (clause B). Level other, not proof: the whole-tree order (C09) is not claimed; std semantics of position / retain are assumed.',
         note=ENVNOTE + '; Vec/VecDeque specs of vstd; core::mem::replace assume_specification; std retain semantics assumed (visit order, kept iff true)',
-        explanation='queue FIFO proved (Verus, unbounded); tracker prepare/end proved (Verus); tracker start complete per length L<=3/5 (Kani); lemma L1 lifts the start contract to per-system FIFO for unbounded histories; runner replay step/order proved at function level (Verus)'),
+        explanation='queue FIFO proved (Verus, unbounded); tracker prepare/start/end proved (Verus, unbounded; start restated by Kani per length L<=3/5); lemma L1 lifts the start contract to per-system FIFO for unbounded histories; runner replay step/order proved at function level (Verus)'),
     'C13': dict(category='other', design_ref='DESIGN.md 5/C13',
         text='Verus proves on verbatim text that SystemCommandStorage::take hands out exactly the stored callback and leaves None (so a second take while it is out yields None), and insert stores exactly its argument. Kani discharges on the real RawCallbackSystem / CallbackSystem::run_with_cleanup, with a stub System carrying its own run and initialize counters, that over 2-3 consecutive runs `initialize` happens exactly once, every run is executed by the SAME instance (its private counter continues) and the system is stored back as Initialized after every run, for exclusive and non-exclusive systems. Not covered: that the runner puts the callback it took back onto the same entity on every path.',
         note=ENVNOTE + '; stub System = assumed contract of bevy System; Box<dyn FnMut> callbacks are opaque values in the Verus unit',
